@@ -77,6 +77,7 @@ type step struct {
 	propose  *types.MsgProposeOutput
 	fn       func(c sdk.Context) error
 	newRole  string // UpdateProposer / UpdateChallenger: the new holder
+	resp     any    // the handler's response (C18 compares two executions)
 }
 
 func (s step) ok() bool { return s.err == nil && !s.pan }
@@ -98,12 +99,13 @@ func newStep(ms MsgServer) *step {
 	case mRecordBatch:
 		req := &types.MsgRecordBatch{Submitter: verifSymStr("req.submitter"), BridgeId: verifSymU64("req.bridge"), BatchBytes: verifOpaqueBytes("req.batch")}
 		st.bridge, st.signer = req.BridgeId, req.Submitter
-		fn = func(c sdk.Context) error { _, e := ms.RecordBatch(c, req); return e }
+		fn = func(c sdk.Context) error { r, e := ms.RecordBatch(c, req); st.resp = r; return e }
 	case mCreateBridge:
 		req := &types.MsgCreateBridge{Creator: verifSymStr("req.creator"), Config: symConfig("req.config")}
 		st.signer = req.Creator
 		fn = func(c sdk.Context) error {
 			r, e := ms.CreateBridge(c, req)
+			st.resp = r
 			if e == nil {
 				st.created = r.BridgeId
 			}
@@ -112,44 +114,44 @@ func newStep(ms MsgServer) *step {
 	case mProposeOutput:
 		req := &types.MsgProposeOutput{Proposer: verifSymStr("req.proposer"), BridgeId: verifSymU64("req.bridge"), OutputIndex: verifSymU64("req.outputIndex"), L2BlockNumber: verifSymU64("req.l2block"), OutputRoot: verifSymBytes("req.root", 32)}
 		st.bridge, st.signer, st.propose = req.BridgeId, req.Proposer, req
-		fn = func(c sdk.Context) error { _, e := ms.ProposeOutput(c, req); return e }
+		fn = func(c sdk.Context) error { r, e := ms.ProposeOutput(c, req); st.resp = r; return e }
 	case mDeleteOutput:
 		req := &types.MsgDeleteOutput{Challenger: verifSymStr("req.challenger"), BridgeId: verifSymU64("req.bridge"), OutputIndex: verifSymU64("req.outputIndex")}
 		st.bridge, st.signer, st.delIndex = req.BridgeId, req.Challenger, req.OutputIndex
-		fn = func(c sdk.Context) error { _, e := ms.DeleteOutput(c, req); return e }
+		fn = func(c sdk.Context) error { r, e := ms.DeleteOutput(c, req); st.resp = r; return e }
 	case mDeposit:
 		req := symDeposit()
 		st.bridge, st.signer, st.deposit = req.BridgeId, req.Sender, req
-		fn = func(c sdk.Context) error { _, e := ms.InitiateTokenDeposit(c, req); return e }
+		fn = func(c sdk.Context) error { r, e := ms.InitiateTokenDeposit(c, req); st.resp = r; return e }
 	case mFinalize:
 		req := symFinalize(verifSymLen("depth", 0, 1))
 		st.bridge, st.signer, st.finalize = req.BridgeId, req.Sender, req
-		fn = func(c sdk.Context) error { _, e := ms.FinalizeTokenWithdrawal(c, req); return e }
+		fn = func(c sdk.Context) error { r, e := ms.FinalizeTokenWithdrawal(c, req); st.resp = r; return e }
 	case mUpdateProposer:
 		req := &types.MsgUpdateProposer{Authority: verifSymStr("req.authority"), BridgeId: verifSymU64("req.bridge"), NewProposer: verifSymStr("req.newProposer")}
 		st.bridge, st.signer, st.newRole = req.BridgeId, req.Authority, req.NewProposer
-		fn = func(c sdk.Context) error { _, e := ms.UpdateProposer(c, req); return e }
+		fn = func(c sdk.Context) error { r, e := ms.UpdateProposer(c, req); st.resp = r; return e }
 	case mUpdateChallenger:
 		req := &types.MsgUpdateChallenger{Authority: verifSymStr("req.authority"), BridgeId: verifSymU64("req.bridge"), Challenger: verifSymStr("req.newChallenger")}
 		st.bridge, st.signer, st.newRole = req.BridgeId, req.Authority, req.Challenger
-		fn = func(c sdk.Context) error { _, e := ms.UpdateChallenger(c, req); return e }
+		fn = func(c sdk.Context) error { r, e := ms.UpdateChallenger(c, req); st.resp = r; return e }
 	case mUpdateBatchInfo:
 		req := &types.MsgUpdateBatchInfo{Authority: verifSymStr("req.authority"), BridgeId: verifSymU64("req.bridge"), NewBatchInfo: symBatchInfo("req.newBatch")}
 		st.bridge, st.signer = req.BridgeId, req.Authority
-		fn = func(c sdk.Context) error { _, e := ms.UpdateBatchInfo(c, req); return e }
+		fn = func(c sdk.Context) error { r, e := ms.UpdateBatchInfo(c, req); st.resp = r; return e }
 	case mUpdateOracleConfig:
 		req := &types.MsgUpdateOracleConfig{Authority: verifSymStr("req.authority"), BridgeId: verifSymU64("req.bridge"), OracleEnabled: verifSymBool("req.oracleEnabled")}
 		st.bridge, st.signer = req.BridgeId, req.Authority
-		fn = func(c sdk.Context) error { _, e := ms.UpdateOracleConfig(c, req); return e }
+		fn = func(c sdk.Context) error { r, e := ms.UpdateOracleConfig(c, req); st.resp = r; return e }
 	case mUpdateMetadata:
 		req := &types.MsgUpdateMetadata{Authority: verifSymStr("req.authority"), BridgeId: verifSymU64("req.bridge"), Metadata: verifOpaqueBytes("req.metadata")}
 		st.bridge, st.signer = req.BridgeId, req.Authority
-		fn = func(c sdk.Context) error { _, e := ms.UpdateMetadata(c, req); return e }
+		fn = func(c sdk.Context) error { r, e := ms.UpdateMetadata(c, req); st.resp = r; return e }
 	default:
 		p := verifSym[types.Params]("req.params")
 		req := &types.MsgUpdateParams{Authority: verifSymStr("req.authority"), Params: &p}
 		st.signer = req.Authority
-		fn = func(c sdk.Context) error { _, e := ms.UpdateParams(c, req); return e }
+		fn = func(c sdk.Context) error { r, e := ms.UpdateParams(c, req); st.resp = r; return e }
 	}
 	st.fn = fn
 	return st
